@@ -51,6 +51,9 @@ inductive AOp where
   | rd (offer : Nat)
   | fl
   | wr (frame : Bytes)
+  /-- a read attempted while nothing is buffered and no datagram has arrived: the receive call fails (time-out,
+  would-block) or stays pending, and nothing changes -/
+  | idle
 deriving Repr
 
 /-- adaptor state: hold-back buffer, datagrams still to arrive, datagrams sent so far -/
@@ -70,6 +73,7 @@ def runOps : ASt → List AOp → List Bytes × ASt
       let r := runOps { s with buf := buf', ds := ds' } ops
       (chunk :: r.1, r.2)
   | s, .fl :: ops => runOps s ops
+  | s, .idle :: ops => runOps s ops
   | s, .wr f :: ops => runOps { s with sent := write f s.sent } ops
 
 end Insim.Udp
